@@ -442,9 +442,79 @@ func withWatchdog(d time.Duration, f func()) (hung bool) {
 	}
 }
 
-func unitStream(r *vh.Rng, n int, casesPath string, sum *vh.Summary) {
-	cv := vh.NewCases(casesPath, "From Coq Require Import List NArith ZArith.\nFrom Verif Require Import C03.Model C03.Corr.\nImport ListNotations.", "case", "mismatches", 60)
-	defer cv.Close()
+// judgeUnit applies the property oracle (ioDecReader == bytesDecReader over the
+// delivered bytes) to one run of an operation list; clsPrefix prefixes the class.
+func judgeUnit(sum *vh.Summary, stream, clsPrefix string, uc *unitCase, iobs []obs, cj map[string]interface{}) {
+	contract := abides(uc.script)
+	for k := range iobs {
+		a, b := iobs[k], uc.bobs[k]
+		opn := opNames[uc.ops[k].Kind]
+		cls := clsPrefix + opn + ":" + shape(uc)
+		cj["op_index"] = k
+		if a.err == nil && b.err != nil {
+			sum.FailC(stream, cls, "ioDecReader succeeds where bytesDecReader fails", cj)
+			break
+		}
+		if a.err != nil && b.err == nil {
+			if contract && !uc.finHard {
+				sum.FailC(stream, cls, "ioDecReader fails where bytesDecReader succeeds", cj)
+			}
+			break
+		}
+		if a.err != nil {
+			break
+		}
+		if !bytes.Equal(a.out, b.out) || a.tok != b.tok {
+			cj["io_out"], cj["bytes_out"] = vh.Hex(a.out), vh.Hex(b.out)
+			sum.FailC(stream, cls, "ioDecReader and bytesDecReader return different bytes", cj)
+			break
+		}
+		if a.nread != b.nread {
+			sum.FailC(stream, cls, "numread differs between ioDecReader and bytesDecReader", cj)
+			break
+		}
+		if uc.bufsize == 0 && a.drawn != a.nread {
+			sum.FailC(stream, cls, "unbuffered ioDecReader drew more bytes than it consumed", cj)
+			break
+		}
+	}
+	delete(cj, "op_index")
+}
+
+// unitCaseTerm is the Coq term of one segment (C03/Corr.v): prevcap = 0 is a new
+// reader (mkcase), otherwise cap(z.buf) just before resetIO was called again (mkrcase).
+func unitCaseTerm(id string, uc *unitCase, prevcap, bufcap int, iobs []obs) string {
+	var ops, ios, bs []string
+	for _, o := range uc.ops {
+		ops = append(ops, coqOp(o))
+	}
+	for _, a := range iobs {
+		if a.err != nil {
+			ios = append(ios, "EErr "+errClass(a.err))
+		} else {
+			ios = append(ios, fmt.Sprintf("EOk %s %d%%N %d %d %d %d%%N", vh.CoqBytes(a.out), a.tok, a.nread, a.drawn, a.calls, a.reqs))
+		}
+	}
+	for _, b := range uc.bobs {
+		if b.err != nil {
+			bs = append(bs, "TErr")
+		} else {
+			bs = append(bs, fmt.Sprintf("TOk %s %d%%N %d", vh.CoqBytes(b.out), b.tok, b.nread))
+		}
+	}
+	fin := "KEof"
+	if uc.finHard {
+		fin = "KHard"
+	}
+	if prevcap == 0 {
+		return fmt.Sprintf("mkcase %s %d %d %s %s %s %s %s %d %s %s", id, uc.bufsize, uc.maxinit, vh.CoqBool(uc.rbr), vh.CoqBytes(uc.data),
+			coqScript(uc.script), fin, coqList(ops), bufcap, coqList(ios), coqList(bs))
+	}
+	return fmt.Sprintf("mkrcase %s %d %d %s %s %s %s %s %d %d %s %s", id, uc.bufsize, uc.maxinit, vh.CoqBool(uc.rbr), vh.CoqBytes(uc.data),
+		coqScript(uc.script), fin, coqList(ops), prevcap, bufcap, coqList(ios), coqList(bs))
+}
+
+func unitStream(r *vh.Rng, n int, cv *vh.Cases, sum *vh.Summary) {
 	for i := 0; i < n; i++ {
 		uc := &unitCase{}
 		uc.bufsize = r.PickInt(0, 0, 0, 1, 2, 3, 7, 16, 64, 256, 300)
@@ -474,64 +544,9 @@ func unitStream(r *vh.Rng, n int, casesPath string, sum *vh.Summary) {
 		}
 		// the property oracle, directly on the implementation
 		contract := abides(uc.script)
-		for k := range iobs {
-			a, b := iobs[k], uc.bobs[k]
-			opn := opNames[uc.ops[k].Kind]
-			cls := opn + ":" + shape(uc)
-			cj["op_index"] = k
-			if a.err == nil && b.err != nil {
-				sum.FailC("unit", cls, "ioDecReader succeeds where bytesDecReader fails", cj)
-				break
-			}
-			if a.err != nil && b.err == nil {
-				if contract && !uc.finHard {
-					sum.FailC("unit", cls, "ioDecReader fails where bytesDecReader succeeds", cj)
-				}
-				break
-			}
-			if a.err != nil {
-				break
-			}
-			if !bytes.Equal(a.out, b.out) || a.tok != b.tok {
-				cj["io_out"], cj["bytes_out"] = vh.Hex(a.out), vh.Hex(b.out)
-				sum.FailC("unit", cls, "ioDecReader and bytesDecReader return different bytes", cj)
-				break
-			}
-			if a.nread != b.nread {
-				sum.FailC("unit", cls, "numread differs between ioDecReader and bytesDecReader", cj)
-				break
-			}
-			if uc.bufsize == 0 && a.drawn != a.nread {
-				sum.FailC("unit", cls, "unbuffered ioDecReader drew more bytes than it consumed", cj)
-				break
-			}
-		}
-		delete(cj, "op_index")
+		judgeUnit(sum, "unit", "", uc, iobs, cj)
 		// the case for the model
-		var ops, ios, bs []string
-		for _, o := range uc.ops {
-			ops = append(ops, coqOp(o))
-		}
-		for _, a := range iobs {
-			if a.err != nil {
-				ios = append(ios, "EErr "+errClass(a.err))
-			} else {
-				ios = append(ios, fmt.Sprintf("EOk %s %d%%N %d %d %d %d%%N", vh.CoqBytes(a.out), a.tok, a.nread, a.drawn, a.calls, a.reqs))
-			}
-		}
-		for _, b := range uc.bobs {
-			if b.err != nil {
-				bs = append(bs, "TErr")
-			} else {
-				bs = append(bs, fmt.Sprintf("TOk %s %d%%N %d", vh.CoqBytes(b.out), b.tok, b.nread))
-			}
-		}
-		fin := "KEof"
-		if uc.finHard {
-			fin = "KHard"
-		}
-		cv.Add(fmt.Sprintf("mkcase %d %d %d %s %s %s %s %s %d %s %s", i, uc.bufsize, uc.maxinit, vh.CoqBool(uc.rbr), vh.CoqBytes(uc.data),
-			coqScript(uc.script), fin, coqList(ops), bufcap, coqList(ios), coqList(bs)))
+		cv.Add(unitCaseTerm(fmt.Sprint(i), uc, 0, bufcap, iobs))
 		sum.ModelCases++
 		last := iobs[len(iobs)-1]
 		lastop := opNames[uc.ops[len(iobs)-1].Kind]
@@ -1507,16 +1522,25 @@ func main() {
 	nNarrow := flag.Int("narrow", 60, "narrow-destination cases (sender struct has fields the receiver lacks)")
 	nNumStr := flag.Int("numstr", 30, "json number-into-string cases")
 	nLong := flag.Int("long", 40, "long-value cases (1 KB - 20 KB strings/bytes)")
+	nResetUnit := flag.Int("resetunit", 150, "random reset unit cases (model-compared) on top of the fixed grid: op list, resetIO onto a new scripted reader, op list")
+	nReuse := flag.Int("reuse", 6, "random documents per format in the Decoder-reuse stream, on top of the fixed ones")
 	maxOff := flag.Int("offsets", 48, "inputs up to this length get a chunk boundary / truncation at every offset")
 	cases := flag.String("cases", "/verif/build/c03/cases", "directory for the model case files")
 	flag.Parse()
 	r := vh.NewRng(vh.SeedFromEnv())
-	sum := vh.NewSummary("unit: random protocol-respecting decReaderI op lists x ReaderBufferSize {0,1,2,3,7,16,64,256,300} x MaxInitLen x plain/ByteReader x reader scripts (1-byte, chunks, zero-length runs below and above 16, data with EOF, terminal EOF or error); non-trivial = has a script or >= 8 bytes; distinct by (mode, reader shape, buffer size, last op, error class, Read calls, numread/4). api: 5 formats x random type/value/options x target (typed, Raw, interface{}) x ReaderBufferSize x reader shapes (all-at-once, 1-byte, random chunks with empty reads, data with EOF, two chunks at every offset, iotest One/Half/DataErr/Timeout readers, plain and ByteReader) x truncation at every offset with 4 endings; distinct by (format, target, kind, length/8). mapkey: 5 formats x string-keyed map types without a fast path (struct, named, pointer, array, nested-map values, named and interface keys, inside slices/structs) x every one-split, two-split and fixed-size chunk schedule of encodings up to -mapkeylen bytes x ReaderBufferSize {1,2,7,16,64,4096}, plain and ByteReader; distinct by (format, type, length/4). narrow: 5 formats (binc half the time, AsSymbols on) x a struct with string-keyed maps sharing keys in several fields decoded into structs that lack the first / first two / middle fields, into Raw, into maps of Raw and into MissingFielder structs (the names and values reported to CodecMissingField are compared) x ReaderBufferSize {0,1,2,7,16,64,4096} x all-at-once, fixed chunks 1,2,3,5,7,16, random chunks with empty reads, a split at every offset, plain and ByteReader; distinct by (format, symbols, destination, length/8). numstr: json numbers (struct fields, slice elements, map values) decoded into string destinations with more input following, same reader sweep; distinct by (length/8, tags, map size). long: 5 formats x 1 KB-20 KB strings / byte strings (alone, in slices, structs, maps; typed, interface{} and Raw destinations) x ReaderBufferSize {0,1,16,300,4096} x MaxInitLen x all-at-once, fixed chunks 1,7,100,1000,1024,1500,4096 and random chunks; distinct by (format, type, destination, length/512); unit stream: every 25th case has 1.1-4.4 KB of data and reads of 700-3000 bytes")
-	unitStream(r.Fork(), *nUnit, *cases, sum)
-	apiStream(r.Fork(), *nAPI, *maxOff, sum)
-	mapKeyStream(r.Fork(), *nMapKey, *mapKeyLen, sum)
-	narrowStream(r.Fork(), *nNarrow, *maxOff, sum)
-	numStrStream(r.Fork(), *nNumStr, *maxOff, sum)
-	longStream(r.Fork(), *nLong, sum)
+	sum := vh.NewSummary("unit: random protocol-respecting decReaderI op lists x ReaderBufferSize {0,1,2,3,7,16,64,256,300} x MaxInitLen x plain/ByteReader x reader scripts (1-byte, chunks, zero-length runs below and above 16, data with EOF, terminal EOF or error); non-trivial = has a script or >= 8 bytes; distinct by (mode, reader shape, buffer size, last op, error class, Read calls, numread/4). api: 5 formats x random type/value/options x target (typed, Raw, interface{}) x ReaderBufferSize x reader shapes (all-at-once, 1-byte, random chunks with empty reads, data with EOF, two chunks at every offset, iotest One/Half/DataErr/Timeout readers, plain and ByteReader) x truncation at every offset with 4 endings; distinct by (format, target, kind, length/8). mapkey: 5 formats x string-keyed map types without a fast path (struct, named, pointer, array, nested-map values, named and interface keys, inside slices/structs) x every one-split, two-split and fixed-size chunk schedule of encodings up to -mapkeylen bytes x ReaderBufferSize {1,2,7,16,64,4096}, plain and ByteReader; distinct by (format, type, length/4). narrow: 5 formats (binc half the time, AsSymbols on) x a struct with string-keyed maps sharing keys in several fields decoded into structs that lack the first / first two / middle fields, into Raw, into maps of Raw and into MissingFielder structs (the names and values reported to CodecMissingField are compared) x ReaderBufferSize {0,1,2,7,16,64,4096} x all-at-once, fixed chunks 1,2,3,5,7,16, random chunks with empty reads, a split at every offset, plain and ByteReader; distinct by (format, symbols, destination, length/8). numstr: json numbers (struct fields, slice elements, map values) decoded into string destinations with more input following, same reader sweep; distinct by (length/8, tags, map size). long: 5 formats x 1 KB-20 KB strings / byte strings (alone, in slices, structs, maps; typed, interface{} and Raw destinations) x ReaderBufferSize {0,1,16,300,4096} x MaxInitLen x all-at-once, fixed chunks 1,7,100,1000,1024,1500,4096 and random chunks; distinct by (format, type, destination, length/512); resetunit: ONE ioDecReader led through 2-3 segments, each entered by calling resetIO again (hook ResetIO) onto a new scripted reader: a fixed grid ReaderBufferSize {0,1,2,3,7,16,64,256,300} x ways the previous segment ended (drained to io.EOF by a failing read, number ended by io.EOF, data delivered together with io.EOF and consumed exactly, unread bytes left, reader fault, recording left on, no progress, untouched) x plain/ByteReader x json-ish and binary op lists, then random segments; every segment is judged against bytesDecReader over its own bytes and is a model case (prevcap = cap(z.buf) before the reset); distinct by (ending of the previous segment, reader shape, buffer size, last op, error class, numread/4). reuse: ONE Decoder per (format, ReaderBufferSize {0,1,2,7,64,256,4096}, history) reused through Decoder.Reset(newReader): histories of the previous Reader (never read, value decoded and more input unread, decoded then drained to io.EOF, last data delivered together with io.EOF, one byte at a time then drained, truncated with io.EOF / with an error / while recording a Raw, zero-length reads only, read deadline, malformed input, long value that grew the buffer, top-level number ended by io.EOF) x reader shapes of the new stream (all-at-once, one-byte, data with io.EOF, two chunks, random chunks with empty reads, iotest.DataErrReader; plain and ByteReader) x fixed and random documents; value, error-ness, NumBytesRead and the end-of-stream error compared with a NEW NewDecoderBytes over the new bytes; distinct by (format, buffer size, history, shape, document). unit stream: every 25th case has 1.1-4.4 KB of data and reads of 700-3000 bytes")
+	// one generator per stream, forked in a fixed order (new streams fork last, so the older streams keep their inputs)
+	rUnit, rAPI, rMapKey, rNarrow, rNumStr, rLong := r.Fork(), r.Fork(), r.Fork(), r.Fork(), r.Fork(), r.Fork()
+	rResetUnit, rReuse := r.Fork(), r.Fork()
+	cv := vh.NewCases(*cases, "From Coq Require Import List NArith ZArith.\nFrom Verif Require Import C03.Model C03.Corr.\nImport ListNotations.", "case", "mismatches", 60)
+	unitStream(rUnit, *nUnit, cv, sum)
+	resetUnitStream(rResetUnit, *nResetUnit, cv, sum)
+	cv.Close()
+	apiStream(rAPI, *nAPI, *maxOff, sum)
+	mapKeyStream(rMapKey, *nMapKey, *mapKeyLen, sum)
+	narrowStream(rNarrow, *nNarrow, *maxOff, sum)
+	numStrStream(rNumStr, *nNumStr, *maxOff, sum)
+	longStream(rLong, *nLong, sum)
+	reuseStream(rReuse, *nReuse, sum)
 	sum.Print()
 }
